@@ -38,14 +38,24 @@ fn dlog<G: Group>(base: &G, x: &G) -> J {
         pos += base;
         neg -= base;
     }
-    json!("none")
+    json!(999_999) // not a power of the base within the window (an integer, so that the trace stays uniformly typed)
 }
 
+thread_local! {
+    static PANICS: std::cell::RefCell<Vec<String>> = const { std::cell::RefCell::new(vec![]) };
+}
+/// a panic is reported as the integer 888888 (the trace stays uniformly typed); its message goes to the event's `panics`
 fn guard(f: impl FnOnce() -> J) -> J {
     match catch_unwind(AssertUnwindSafe(f)) {
         Ok(v) => v,
-        Err(p) => json!(format!("panic:{}", panic_msg(p).chars().take(60).collect::<String>())),
+        Err(p) => {
+            PANICS.with(|l| l.borrow_mut().push(panic_msg(p).chars().take(80).collect::<String>()));
+            json!(888_888)
+        }
     }
+}
+fn take_panics() -> Vec<String> {
+    PANICS.with(|l| std::mem::take(&mut *l.borrow_mut()))
 }
 
 fn run_engine<E>(name: &str, scen: &[J], out: &mut dyn Write)
@@ -101,12 +111,101 @@ where
             }
             dlog(&gt, &acc)
         });
+        let pair_panics = take_panics();
+        // Miller-loop results of the single pairs combined with every operator form, then one final exponentiation
+        let mls = |f: &dyn Fn(E::Result, E::Result) -> E::Result| {
+            guard(|| {
+                let mut acc = E::Result::default();
+                for (p, q) in ps.iter().zip(prepared.iter()) {
+                    acc = f(acc, E::multi_miller_loop(&[(p, q)]));
+                }
+                dlog(&gt, &acc.final_exponentiation())
+            })
+        };
+        let ml_add = mls(&|a, b| a + b);
+        let ml_add_ref = mls(&|a, b| a + &b);
+        let ml_assign = mls(&|mut a, b| {
+            a += b;
+            a
+        });
+        let ml_assign_ref = mls(&|mut a, b| {
+            a += &b;
+            a
+        });
+        let ml_panics = take_panics();
         let identity_flags: Vec<bool> = ps.iter().zip(qs.iter()).map(|(p, q)| bool::from(E::pairing(p, q).is_identity())).collect();
         writeln!(out, "{}", json!({"ev":"Pair","engine":name,"terms":sc["terms"],"expect":sc["expect"],
             "product":product,"multi":multi,"multi_reversed":multi_rev,"pairing_with_g1":with12,"pairing_with_g2":with21,
-            "single_is_identity":identity_flags})).unwrap();
+            "single_is_identity":identity_flags,"panics":pair_panics})).unwrap();
+        writeln!(out, "{}", json!({"ev":"PairML","engine":name,"terms":sc["terms"],"expect":sc["expect"],
+            "ml_add":ml_add,"ml_add_ref":ml_add_ref,"ml_assign":ml_assign,"ml_assign_ref":ml_assign_ref,"panics":ml_panics})).unwrap();
     }
     let _ = E::G1Affine::identity();
+}
+
+/// Target-group arithmetic on coefficients: Gt values of pairings e(a.G1, b.G2), the group operations of Gt and the final
+/// exponentiation, logged as elements of Fp12 (nested coefficient arrays) for the tower arithmetic of Tower.tla.
+fn gt_values<E, T>(name: &str, deep: bool, out: &mut dyn Write, to_d: &dyn Fn(&E::Gt) -> T::D, ml_to_d: &dyn Fn(&E::Result) -> T::D)
+where
+    E: MultiMillerLoop,
+    E::G2Prepared: From<E::G2Affine>,
+    T: crate::c10t::Tw,
+{
+    use crate::{c10t::d_json, gad::nat_of_big};
+    use num_bigint::BigUint;
+    let g1 = E::G1::generator();
+    let g2 = E::G2::generator();
+    let pair = |a: i64, b: i64| E::pairing(&(g1 * si::<E::Fr>(a)).to_affine(), &(g2 * si::<E::Fr>(b)).to_affine());
+    let base = pair(1, 1);
+    let bj = d_json::<T>(&to_d(&base));
+    let dj = |g: &E::Gt| d_json::<T>(&to_d(g));
+    let mut emit = |op: &str, ins: Vec<J>, extra: J, o: J| {
+        writeln!(out, "{}", json!({"ev":"GtF","engine":name,"op":op,"base":bj,"ins":ins,"x":extra,"out":o})).unwrap();
+    };
+    let ab: Vec<(i64, i64)> = if deep { vec![(1, 1), (2, 3), (-1, 5), (0, 3), (3, 0), (0, 0), (-2, -7), (40, 41)] } else { vec![(1, 1), (2, 3), (-1, 5), (0, 3), (3, 0)] };
+    let vals: Vec<E::Gt> = ab.iter().map(|(a, b)| pair(*a, *b)).collect();
+    for ((a, b), g) in ab.iter().zip(vals.iter()) {
+        emit("pairing", vec![], json!({"a":a,"b":b}), dj(g));
+    }
+    emit("identity", vec![], json!({}), dj(&E::Gt::identity()));
+    for (i, x) in vals.iter().enumerate() {
+        emit("neg", vec![dj(x)], json!({}), dj(&(-*x)));
+        emit("double", vec![dj(x)], json!({}), dj(&x.double()));
+        emit("is_identity", vec![dj(x)], json!({}), json!(bool::from(x.is_identity())));
+        for y in vals.iter().skip(i % 2).step_by(2) {
+            emit("add", vec![dj(x), dj(y)], json!({}), dj(&(*x + *y)));
+            emit("sub", vec![dj(x), dj(y)], json!({}), dj(&(*x - *y)));
+            emit("eq", vec![dj(x), dj(y)], json!({}), json!(x == y));
+        }
+        emit("sum3", vec![dj(x), dj(&vals[0]), dj(&vals[1])], json!({}), dj(&[*x, vals[0], vals[1]].iter().sum::<E::Gt>()));
+    }
+    // scalar multiplication over the scalar classes
+    let r = BigUint::from_bytes_le((-E::Fr::ONE).to_repr().as_ref()) + 1u8;
+    let one = BigUint::from(1u8);
+    let mut scalars = vec![BigUint::from(0u8), one.clone(), BigUint::from(2u8), &r - &one, &one << 128, BigUint::from(3u8).modpow(&BigUint::from(777u32), &r)];
+    if deep {
+        scalars.push(&r - BigUint::from(2u8));
+        scalars.push((&one << 254) + &one);
+    }
+    for x in vals.iter().take(if deep { 3 } else { 2 }) {
+        for s in scalars.iter() {
+            let mut sv = E::Fr::ZERO;
+            for d in s.to_bytes_be() {
+                sv = sv * E::Fr::from(256u64) + E::Fr::from(d as u64);
+            }
+            emit("mul", vec![dj(x)], json!({"scalar":nat_of_big(s)}), dj(&(*x * sv)));
+        }
+    }
+    // final exponentiation of Miller-loop outputs
+    let lists: Vec<Vec<(i64, i64)>> = if deep { vec![vec![(1, 1)], vec![(2, 3), (-1, 5)], vec![(1, 0)], vec![]] } else { vec![vec![(2, 3), (-1, 5)]] };
+    for ts in lists {
+        let ps: Vec<E::G1Affine> = ts.iter().map(|(a, _)| (g1 * si::<E::Fr>(*a)).to_affine()).collect();
+        let qs: Vec<E::G2Prepared> = ts.iter().map(|(_, b)| E::G2Prepared::from((g2 * si::<E::Fr>(*b)).to_affine())).collect();
+        let refs: Vec<(&E::G1Affine, &E::G2Prepared)> = ps.iter().zip(qs.iter()).collect();
+        let ml = E::multi_miller_loop(&refs);
+        let fe = ml.final_exponentiation();
+        emit("final_exp", vec![d_json::<T>(&ml_to_d(&ml))], json!({"terms":ts.iter().map(|(a, b)| json!([a, b])).collect::<Vec<_>>()}), dj(&fe));
+    }
 }
 
 pub fn main(args: &[String]) -> i32 {
@@ -115,5 +214,28 @@ pub fn main(args: &[String]) -> i32 {
     writeln!(out, "{}", json!({"ev":"header","prop":"C13","n":scen.len(),"window":WINDOW})).unwrap();
     run_engine::<Bls12>("bls12_381", &scen, &mut out);
     run_engine::<bn256::Bn256>("bn256", &scen, &mut out);
+    let mode = args.get(2).map(|s| s.as_str()).unwrap_or("");
+    let deep = mode == "deep";
+    if mode == "gt" || deep {
+        use crate::c10t::{hex_numbers, BlsTw, BnTw};
+        let bls_gt = |g: &midnight_curves::Gt| midnight_curves::bls12_381::Fp12::from(*g);
+        let bls_ml = |m: &midnight_curves::MillerLoopResult| {
+            let n = hex_numbers(&format!("{m:?}"));
+            assert_eq!(n.len(), 12, "unexpected Debug rendering of MillerLoopResult");
+            let d = BlsTw::d_of(&n);
+            assert!(format!("{m:?}").contains(&format!("{d:?}")), "Debug rendering of MillerLoopResult does not name its coefficients");
+            d
+        };
+        gt_values::<Bls12, BlsTw>("bls12_381", deep, &mut out, &bls_gt, &bls_ml);
+        let bn_gt = |g: &bn256::Gt| {
+            let n = hex_numbers(&format!("{g:?}"));
+            assert_eq!(n.len(), 12, "unexpected Debug rendering of Gt");
+            let d = BnTw::d_of(&n);
+            assert!(format!("{g:?}").contains(&format!("{d:?}")), "Debug rendering of Gt does not name its coefficients");
+            d
+        };
+        let bn_ml = |m: &bn256::Fq12| *m;
+        gt_values::<bn256::Bn256, BnTw>("bn256", deep, &mut out, &bn_gt, &bn_ml);
+    }
     0
 }
